@@ -77,7 +77,10 @@ def main() -> None:
             flush()
 
     flush()
-    atheris.Setup([sys.argv[0]] + fuzz_args + [corpus], one)
+    # committed, merge-minimised corpus of earlier campaigns (read-only second corpus directory)
+    saved = os.path.join(os.path.dirname(os.path.dirname(os.path.abspath(__file__))), "corpus", "C10-fuzz", f"shard{shard:02d}of{nshards}")
+    dirs = [corpus] + ([saved] if os.path.isdir(saved) else [])
+    atheris.Setup([sys.argv[0]] + fuzz_args + dirs, one)
     atheris.Fuzz()
 
 
